@@ -15,6 +15,11 @@ void h_md_variant(void) {
   uint8_t in[NB]; for (unsigned i = 0; i < NB; i++) in[i] = vin_u8();
   uint32_t n = vin_u32(); VASSUME(n <= NB); uint8_t L = vin_u8();
 #ifdef FAMILY   /* one obligation per family of format codes (the union of the families is all 256 codes) */
+#if FAMILY == 2    /* the two narrow families are drawn constructively (onto: every member is reached), so that the native witness search does not depend on luck */
+  in[0] = (uint8_t)(0xca + (in[0] & 1));
+#elif FAMILY == 1
+  in[0] = (uint8_t)(0xcc + (in[0] & 7));
+#endif
   { uint8_t c0 = in[0];
     int fam = (c0 <= 0x7f || c0 >= 0xe0 || (c0 >= 0xc0 && c0 <= 0xc3)) ? 0 : (c0 >= 0xcc && c0 <= 0xd3) ? 1 : (c0 == 0xca || c0 == 0xcb) ? 2 :
               ((c0 & 0xe0) == 0xa0 || (c0 >= 0xd9 && c0 <= 0xdb)) ? 3 : ((c0 >= 0xc4 && c0 <= 0xc9) || (c0 >= 0xd4 && c0 <= 0xd8)) ? 4 : 5;
@@ -63,8 +68,8 @@ void h_md_variant(void) {
   if (payload && kind == 4) bits = be(in + 1, payload);
   if (payload && kind == 3) { uint64_t r = be(in + 1, payload); bits = payload == 1 ? (uint64_t)(int64_t)(int8_t)r : payload == 2 ? (uint64_t)(int64_t)(int16_t)r : payload == 4 ? (uint64_t)(int64_t)(int32_t)r : r; }
   if (kind == 0 || kind == 1 || kind == 2) { VASSERT(o.f2 == (unsigned)kind, "nil / false / true"); VWITNESS("simple"); }
-  else if (kind == 3) { VASSERT((o.f2 == 3 && o.f7 == bits) || (o.f2 == 4 && (int64_t)bits >= 0 && o.f7 == bits), "integer: exact value and sign for every width"); if (payload == 8) VWITNESS("i64"); }
-  else if (kind == 4) { VASSERT((o.f2 == 4 || o.f2 == 3) && o.f7 == bits && (o.f2 == 4 || (int64_t)bits >= 0), "unsigned integer: exact value for every width"); if (payload == 8) VWITNESS("u64"); }
+  else if (kind == 3) { VASSERT((o.f2 == 3 && o.f7 == bits) || (o.f2 == 4 && (int64_t)bits >= 0 && o.f7 == bits), "integer: exact value and sign for every width"); if (payload == 8) VWITNESS("i64"); else VWITNESS("int"); }
+  else if (kind == 4) { VASSERT((o.f2 == 4 || o.f2 == 3) && o.f7 == bits && (o.f2 == 4 || (int64_t)bits >= 0), "unsigned integer: exact value for every width"); if (payload == 8) VWITNESS("u64"); else VWITNESS("uint"); }
   else if (kind == 5) { float f = vin_unbits32((uint32_t)be(in + 1, 4)); double d = (double)f; double got; memcpy(&got, &o.f7, 8); VASSERT(o.f2 == 5 && ((f != f) ? (got != got) : vbits64(got) == vbits64(d)), "float32: exact value"); VWITNESS("f32"); }
   else if (kind == 6) { uint64_t b = be(in + 1, 8); double d; memcpy(&d, &b, 8); double got; memcpy(&got, &o.f7, 8);
 #ifdef NODOUBLE   /* ARDUINOJSON_USE_DOUBLE=0: the value is ROUNDED (to nearest) to float */
